@@ -19,7 +19,7 @@ def run(c):
         E.liveness(c, "LiveNear", "q")
     c.build_worker()
     stats = E.Stats()
-    parts = ["all"] if c.quick else ["x509", "sha256", "extern", "sha1", "unknown"]
+    parts = ["all"] if c.quick else ["x509", "sha256", "extern", "sha1", "unknown", "zeroguid"]
     base = 0
     total_cases = 0
     samples = []
